@@ -1371,7 +1371,9 @@ func (s *BgpServer) processRTCMembership(peer *peer, path *table.Path) {
 
 	rtKnownAfter := hasRt(rt)
 
-	if !path.IsWithdraw && rtKnownBefore || path.IsWithdraw && rtKnownAfter {
+	if rtKnownBefore == rtKnownAfter {
+		// duplicate announcement, withdrawal of one of several memberships for the RT,
+		// or withdrawal of a membership that was never held: nothing changes
 		return
 	}
 
